@@ -25,6 +25,7 @@ def run(prog, chk):
         "UVS default vs non-default decided by equality with the base mapping (R03.6)",
         "every declared code point of every glyph of the order reaches the mapping (no filtering: U+0000 is a code point); OS/2 indices only exclude None (R03.7)",
         "the compilers never fill in or override their glyphOrder option: a source is ordered by the caller's argument or its own public.glyphOrder (R03.8)",
+        "a glyph a filter takes from another layer and adds under a new name has its code points removed before the insertion (R03.9)",
     ]
     chk.not_decided += ["the ordering as a function of arbitrary inputs", "cmap binary encoding (fontTools)"]
     chk.guard(r031, prog, chk)
@@ -35,6 +36,7 @@ def run(prog, chk):
     chk.guard(r035, prog, chk)
     chk.guard(r037, prog, chk)
     chk.guard(r038, prog, chk)
+    chk.guard(r039, prog, chk)
 
 
 # ----------------------------------------------------------------------------- R03.1
@@ -565,7 +567,7 @@ def r036(prog, chk, cm, only_when_no_hi):
         for e, n, mexpr, c in eqs[:1]:
             covs = cm.cov_expr(mexpr, c.test)
             okc = all(cv is not None and "LO" in cv and ("HI" in cv or only_when_no_hi(dn, c.test)) for cv, dn in covs)
-            chk.ob("R03.6", f"{fi.short}|{A.keytext(fi.node, ap)}|complete base mapping", okc, where(fi, c.test),
+            chk.ob("R03.6", f"{fi.short}|{A.keytext(fi.node, ap)}|complete base mapping", okc, where(fi, c.loc),
                    detail=f"base mapping consulted holds {[sorted(cv) if cv is not None else '?' for cv, _ in covs]}",
                    message="the default / non-default decision consults a dict that lacks part of the code-point mapping "
                            "(a sequence on a missing base is then always written as non-default)")
@@ -648,7 +650,44 @@ def r038(prog, chk):
     chk.minimum("R03.8", 6)
 
 
+
+# ----------------------------------------------------------------------------- R03.9
+def r039(prog, chk):
+    """A glyph that a filter takes from somewhere else (another layer, another glyph set) and inserts into the working glyph
+    set under a new name has its code points removed before it gets there: otherwise the copy becomes an encoded glyph
+    and the cmap maps a code point to a glyph no source glyph of that name declares (or the compile stops with a
+    duplicate-code-point error)."""
+    ix = prog.ix
+    from .c14 import _glyphset_expr
+    n = 0
+    for fi in ix.functions.values():
+        if not fi.module.name.startswith("ufo2ft.filters"):
+            continue
+        cfg = None
+        for st, t, v in subscript_stores(fi):
+            if not (isinstance(v, ast.Name) and _glyphset_expr(prog, fi, t.value)):
+                continue
+            ds = prog.reaching(fi, v.id, v)
+            borrowed = [d for d in ds if isinstance(d.value, ast.Subscript) or (isinstance(d.value, ast.Call) and A.callee_name(d.value) == "get")]
+            if not borrowed:
+                continue
+            # same key as it was fetched with: the glyph is put back, not added under a new name
+            if all(isinstance(d.value, ast.Subscript) and T(d.value.slice) == T(t.slice) for d in borrowed):
+                continue
+            n += 1
+            cfg = cfg or prog.cfg(fi)
+            clears = [s_ for s_, t_, v_ in attr_stores(fi, "unicodes") if T(t_.value) == v.id and isinstance(v_, (ast.List, ast.Tuple)) and not v_.elts]
+            ok = any(cfg.dominates(cfg.node_of(c_), cfg.node_of(st)) for c_ in clears)
+            chk.ob("R03.9", f"{fi.short}|{A.keytext(fi.node, st)}|a glyph added under a new name carries no code points", ok, where(fi, st), detail=f"{v.id}.unicodes = [] before the insertion",
+                   message=f"{fi.short}: `{T(st, 60)}` adds a glyph taken from another layer / glyph set under a new name without clearing its code points on every path: the copy is "
+                           f"encoded in the cmap (or clashes with the glyph it was copied from)")
+    need(n >= 1, "no filter adds a borrowed glyph under a new name any more (R03.9 has nothing to check)")
+    chk.minimum("R03.9", 1)
+
+
 MUTANTS = [
+    M("recursive colour-layer copies keep their code points (seeded C03f)", "ufo2ft/filters/explodeColorLayerGlyphs.py", "ExplodeColorLayerGlyphsFilter._copyGlyph",
+      "layerGlyph.unicodes = []", "pass", rule="R03.9"),
     M("designspace compiles order every master like the default source (seeded C03e)", "ufo2ft/_compilers/baseCompiler.py", "BaseInterpolatableCompiler._pre_compile_designspace",
       "self.extraSubstitutions = defaultdict(set)", "if self.glyphOrder is None:\n    self.glyphOrder = designSpaceDoc.findDefault().font.glyphOrder\nself.extraSubstitutions = defaultdict(set)", rule="R03.8"),
     M("interpolatable TTF masters ordered by the first master", "ufo2ft/_compilers/interpolatableTTFCompiler.py", "InterpolatableTTFCompiler.compileOutlines",
